@@ -627,9 +627,9 @@ func (gw *GlobalWindow) getKeyAndValues(data map[string]any) (string, map[string
 		return "__global__", nil
 	}
 	v := reflect.ValueOf(data)
-	parts := make([]string, 0, len(gw.groupByKeys))
+	var b strings.Builder
 	values := make(map[string]any, len(gw.groupByKeys))
-	for _, k := range gw.groupByKeys {
+	for i, k := range gw.groupByKeys {
 		var val any
 		if fieldpath.IsNestedField(k) {
 			val, _ = fieldpath.GetNestedField(data, k)
@@ -640,14 +640,14 @@ func (gw *GlobalWindow) getKeyAndValues(data map[string]any) (string, map[string
 		}
 		values[k] = val
 		if val == nil {
-			parts = append(parts, "")
+			appendGroupKeyPart(&b, i == 0, "", true)
 		} else if s, ok := val.(string); ok {
-			parts = append(parts, s)
+			appendGroupKeyPart(&b, i == 0, s, false)
 		} else {
-			parts = append(parts, fmt.Sprintf("%v", val))
+			appendGroupKeyPart(&b, i == 0, fmt.Sprintf("%v", val), false)
 		}
 	}
-	return strings.Join(parts, "|"), values
+	return b.String(), values
 }
 
 // feedAggs feeds the row's field values into a group's output aggregators.
